@@ -114,6 +114,9 @@ func c19Embedded(o *Out) {
 		} else {
 			v = mk()
 			qs = c19EmbQuery(r, top, sub, 1)
+			if i%30 == 1 {
+				qs = nil // the query without fields selects nothing, of the embedded structs either
+			}
 		}
 		full, err := stdjson.Marshal(v)
 		if err != nil {
